@@ -843,3 +843,61 @@ Proof.
   exact (all_written_bytes_eventually_delivered x Dt Da Dack n m evs _ st st' L0 HDt HDk HDa HN Ho
            (fa_init_sync Dt Da st) HR Hfair Hrun HL Hn Hm Hlate).
 Qed.
+
+(* the same with the fairness bookkeeping of a run already in progress *)
+Theorem oneway_delivery_from_established_fa x Dt Da Dack : forall n m evs fa st st' L0,
+  reach st -> reg x Dack st -> opts_ok st ->
+  0 <= Dt -> 0 <= Da -> 0 <= Dack -> dl_sync Da fa st -> fair_run Dt Da fa st evs ->
+  Forall (app_ev x) evs -> net_run st evs = Ok st' ->
+  (forall z, l_len (ep_written (net_get st' z)) < 2 ^ 30) ->
+  run_all (win_open x) st evs ->
+  L0 <= l_len (ep_written (net_get st x)) ->
+  L0 - una_off (net_get st x) <= Z.of_nat n ->
+  L0 - read_off (net_get st (side_other x)) <= Z.of_nat m ->
+  net_now st x + Z.of_nat n * W3 Dt Dack + Z.of_nat m * Da < net_now st' x ->
+  exists pre post st1, evs = pre ++ post /\ net_run st pre = Ok st1 /\ net_run st1 post = Ok st' /\
+                       L0 <= read_off (net_get st1 (side_other x)).
+Proof.
+  intros n m evs fa st st' L0 Hre HG Ho HDt HDa HDk Hsy Hfair Happ Hrun Hsz Hwo HL Hn Hm Hlate.
+  pose proof (reach_NI st Hre) as HN.
+  assert (Hsm : NV.small st').
+  { split; [specialize (Hsz SA) | specialize (Hsz SB)]; cbn [net_get] in Hsz;
+      change (2 ^ 30) with 1073741824 in Hsz; lia. }
+  pose proof (safe3_run x Dack evs st st' Hre HN Ho HG (script_of_fair x Dt Da _ _ _ _ Hfair Hrun Happ)
+                Hrun Hsm (Hsz x) Hwo) as HR.
+  exact (all_written_bytes_eventually_delivered x Dt Da Dack n m evs fa st st' L0 HDt HDk HDa HN Ho
+           Hsy HR Hfair Hrun HL Hn Hm Hlate).
+Qed.
+
+(* the regime invariant holds in every state of a run of the one-way workload *)
+Theorem reg_run_all x Dack : forall evs st st',
+  reach st -> NI st -> opts_ok st -> reg x Dack st ->
+  Forall (script_ev x) evs -> net_run st evs = Ok st' -> NV.small st' ->
+  run_all (reg x Dack) st evs.
+Proof.
+  induction evs as [|ev rest IH]; intros st st' Hre HN Ho HG Hsc Hrun Hsm.
+  - cbn [run_all]. split; [exact HG | exact I].
+  - cbn [net_run] in Hrun. apply obind_ok in Hrun. destruct Hrun as (st1 & Hs & Hrun).
+    inversion Hsc as [|? ? Hsc1 Hsc2]; subst.
+    pose proof (net_run_mono _ _ _ Hrun) as Hm1. pose proof (net_step_mono _ _ _ Hs) as Hm0.
+    assert (Hsm1 : NV.small st1) by exact (NV.small_mono _ _ Hm1 Hsm).
+    assert (Hsm0 : NV.small st) by exact (NV.small_mono _ _ Hm0 Hsm1).
+    pose proof (reach_inv_at x st Hre Hsm0 (rg_closed x Dack st HG)) as HI.
+    pose proof (reach_step _ _ _ Hre Hs) as Hre1.
+    pose proof (closed_step x _ _ _ Hsc1 Hs (rg_closed x Dack st HG)) as Hcl1.
+    pose proof (reach_inv_at x st1 Hre1 Hsm1 Hcl1) as HI1.
+    pose proof (reg_step x Dack _ _ _ HN Ho HG HI HI1 Hsc1 Hs) as HG1.
+    cbn [run_all]. rewrite Hs. split; [exact HG|].
+    apply (IH st1 st'); try assumption.
+    + exact (NI_step _ _ _ HN Hs).
+    + exact (opts_step _ _ _ Ho Hs).
+Qed.
+
+Lemma run_all_mp (P Q : net -> Prop) evs : forall st,
+  run_all P st evs -> run_all (fun s => P s -> Q s) st evs -> run_all Q st evs.
+Proof.
+  induction evs as [|ev r IH]; intros st HP HQ; cbn [run_all] in *.
+  - destruct HP as (HP & _). destruct HQ as (HQ & _). auto.
+  - destruct HP as (HP & HP1). destruct HQ as (HQ & HQ1). split; [auto|].
+    destruct (net_step st ev); try exact I. apply IH; assumption.
+Qed.
